@@ -126,7 +126,7 @@ EXTRA = {
  "C04": " Added: `scale`; directed InteractingNetworks with node lists mapped element by element; recurrence networks with fixed rate / fixed local rate on tie-rich series.",
  "C05": " Added: sparse inputs with stored zeros, save-after-change histories (weights, adjacency), a signed link attribute, igraph objects with edges in another order, copy + in-place weight update, `scale` (N >= 182)." + FORMS,
  "C06": " Added: family `two_objects` (A, another object B of the same class, A again - queries and every mutator - vs A alone) and fingerprints of every data object (grid, ClimateData) handed to a constructor through that object's own public queries; every observed array is snapshotted at observation time (aliasing with library buffers).",
- "C07": " Added: `scale` (130-300 states), `normalize=True`, and re-thresholding of every explored recurrence network through the matching public setter (the adaptive one also with an explicit processing order)." + FORMS,
+ "C07": " Added: `scale` (130-300 states), `normalize=True`, and re-thresholding of every explored recurrence network through the matching public setter (the adaptive one also with an explicit processing order); `offset` (trajectories far from the origin and close to each other)." + FORMS,
  "C08": " Added: `long` (scan lines beyond 256 cells) and float32-boundary thresholds in sequential mode; `objects` (recurrence networks, joint plots and joint networks, fresh and after each mutator, vs run-length counts of their own matrix); `rqa_summary` with l_min != v_min; `embedded_mv` (NaN samples under delay embedding).",
  "C09": " Added: `scale` (129-209 nodes, non-local bands, coincident nodes); the directed Hilbert network vs a fresh object after every setter." + FORMS,
  "C10": " Added: `scale` (>= 17 bins) and `gridded` ([time, lat, lon] / [time, level, lat, lon] input vs its row-major reshape, both classes); full-sample time surrogates vs the full-window statistic; shift invariance of the climate similarity measures; estimates before and after a surrogate draw." + FORMS,
@@ -139,7 +139,7 @@ EXTRA = {
  "C17": " Added: `scale` families, density-to-count round trips for products up to 400, node lists in non-ascending order; degree-preserving rewiring of directed networks (in- and out-degrees).",
  "C18": " Added: `scale` (25-40 nodes, resistances over >= 10 decades, several components) and `routes` (adjacency= with values on non-links, update with a full matrix / the same array edited in place, real <-> complex updates); the scaling law with factors 2^-30 ... 2^30." + FORMS,
  "C19": " Added: components of 52-213 nodes (part arithmetic), more than 100 nodes per slave; preemption bounds 2/1 (quick) and 3/2 (thorough); distributed runs on objects of seven Network subclasses.",
- "C20": " Added: entries with 10-40 nodes / hundreds of samples (thorough) and the twin kernels of Surrogates (3-D embedding); tools/kernel_reach.py confirms that every function of the four extension modules is reached; cross-recurrence entries with unequal lengths in more than one dimension; call histories within one process; chunk kernels on row blocks; networks of 12-150 nodes with fewer links than nodes.",
+ "C20": " Added: entries with 10-40 nodes / hundreds of samples (thorough) and the twin kernels of Surrogates (3-D embedding); tools/kernel_reach.py confirms that every function of the four extension modules is reached; cross-recurrence entries with unequal lengths in more than one dimension; call histories within one process; chunk kernels on row blocks; networks of 12-150 nodes with fewer links than nodes; undersized caller matrices for symmetrize_by_absmax.",
 }
 
 
